@@ -1,7 +1,13 @@
 """C16 obligations (DESIGN.md C16)."""
-OBLIGATIONS = [
-    dict(name="readlncont", src="readln.c", include=["strutil.c"], units=["dynstr.c"], cuts={"dynstr.c": ["as_dynstr_realloc"]}, defs=["NB=5", "STRINGSIZE=16"], unwind=8, unwind_fn={"harness": 12, "ReadLnCont": 5, "vf_fgets": 8},
-         functions=["strutil.c:ReadLnCont"], bounds="every file of 0..5 bytes without NUL", timeout=900,
+def _rl(name, nb, **kw):
+    d = dict(name=name, src="readln.c", include=["strutil.c"], units=["dynstr.c"], cuts={"dynstr.c": ["as_dynstr_realloc"]}, defs=["NB=%d" % nb, "STRINGSIZE=16"],
+             unwind=8, unwind_fn={"harness": 12, "ReadLnCont": 5, "vf_fgets": 8}, functions=["strutil.c:ReadLnCont"], bounds="every file of 0..%d bytes without NUL" % nb, timeout=1500, mem_gb=24,
+             assumes=["stdio replaced by the memory-file model (fgets contract: up to n-1 bytes, stops after LF, NULL at EOF with nothing read)", "line buffer of 256 bytes: no reallocation at these sizes (asserted)"])
+    d.update(kw); return d
+OBLIGATIONS = [_rl("readlncont", 3), _rl("readlncont_4", 4, tier="thorough")]
+_OLD = [
+    dict(name="readlncont_old", src="readln.c", include=["strutil.c"], units=["dynstr.c"], cuts={"dynstr.c": ["as_dynstr_realloc"]}, defs=["NB=3", "STRINGSIZE=16"], unwind=8, unwind_fn={"harness": 12, "ReadLnCont": 5, "vf_fgets": 8},
+         functions=["strutil.c:ReadLnCont"], bounds="every file of 0..3 bytes without NUL", timeout=900,
          assumes=["stdio replaced by the memory-file model (fgets contract: up to n-1 bytes, stops after LF, NULL at EOF with nothing read)", "line buffer of 256 bytes: no reallocation at these sizes"]),
 ]
 META = dict(outside=["SplitLine (field splitting, comments, colon after labels): symbolic text does not finish under symex", "letter case of mnemonics/symbols (pending)",
